@@ -1,4 +1,5 @@
 CONSTANT Deep = FALSE
+CONSTANT AttrScope = "no"
 SPECIFICATION Spec
 INVARIANT DesignOK
 CHECK_DEADLOCK FALSE
